@@ -354,6 +354,10 @@ KINDS: dict[str, tuple[Expr, bool]] = {
     "digit": (("builtin", "ASCII_DIGIT"), False),
     "hex": (("builtin", "ASCII_HEX_DIGIT"), False),
     "newline": (("builtin", "NEWLINE"), False),
+    "alpha": (("builtin", "ASCII_ALPHA"), False),
+    "alnum": (("plus", ("builtin", "ASCII_ALPHANUMERIC")), False),
+    "ascii": (("builtin", "ASCII"), False),
+    "asciimix": (("seq", ("choice", ("builtin", "ASCII_ALPHA_UPPER"), ("builtin", "ASCII_OCT_DIGIT")), ("opt", ("choice", ("builtin", "ASCII_ALPHA_LOWER"), ("builtin", "ASCII_NONZERO_DIGIT"), ("builtin", "ASCII_BIN_DIGIT")))), False),
     "letter": (("builtin", "LETTER"), False),
     "eoi": (("eoi",), False),
     "soi": (("soi",), False),
